@@ -134,6 +134,56 @@ def b_walk(tier):
                                    dict(kind="walk", expr=trees.src(e), cut=cname, args=repr(a), kw=repr(kw)),
                                    expected=f"{len(ref)} events {_short(ref)}", actual=f"{outcome.describe(real)[:80]} {len(w.log)} events {_short(w.log)}",
                                    functions=[f"WalkMapper.{getattr(type(e), 'mapper_method', 'map_foreign')}"]))
+    # containers that are not expression dataclasses: multivectors, numpy object arrays, polynomial nodes
+    import numpy as np
+    from pymbolic.geometric_algebra import MultiVector, Space
+    from pymbolic.polynomial import Polynomial
+    x, y = trees.X, trees.Y
+    s1, s2 = p.Sum((x, 1)), p.Product((2, y))
+    containers = [
+        ("multivector", MultiVector({1: x, 2: s1, 3: 5}, Space(2)), [x, s1, 5]),
+        ("multivector-scalar", MultiVector({0: s2}, Space(2)), [s2]),
+        ("array-1d", np.array([x, s1, 2], dtype=object), [x, s1, 2]),
+        ("array-2d", np.array([[x, s2], [3, s1]], dtype=object), [x, s2, 3, s1]),
+        ("polynomial", Polynomial(x, ((0, s1), (2, y))), [x, s1, y]),
+    ]
+    for cname_, obj, kids in containers:
+        for cut_here in (False, True):
+            for a, kw in argsets:
+                w = W(lambda e, obj=obj, cut_here=cut_here: cut_here and e is obj)
+                real = outcome.run(lambda: w(obj, *a, **kw))
+                tag = (a, tuple(sorted(kw.items())))
+                b.case(("container", cname_, cut_here, repr(a), repr(kw)), sample=dict(container=cname_, cut=cut_here, args=repr(a)))
+                ev = [(k_, e_) for (k_, e_, t_) in w.log]
+                why = None
+                if real[0] != "val":
+                    why = outcome.describe(real)[:150]
+                elif any(t_ != tag for (_, _, t_) in w.log):
+                    why = "extra arguments not passed through unchanged"
+                elif not ev or ev[0][0] != "visit" or ev[0][1] is not obj:
+                    why = "the container is not visited first"
+                elif cut_here:
+                    if len(ev) != 1:
+                        why = f"visit returned false but {len(ev) - 1} further events happened"
+                else:
+                    if ev[-1][0] != "post" or ev[-1][1] is not obj:
+                        why = "post_visit of the container is not the last event"
+                    else:
+                        top = []
+                        depth = 0
+                        for k_, e_ in ev[1:-1]:
+                            if k_ == "visit":
+                                if depth == 0:
+                                    top.append(e_)
+                                if isinstance(e_, p.Expression) and ref_children(e_):
+                                    depth += 1
+                            elif k_ == "post" and isinstance(e_, p.Expression) and ref_children(e_):
+                                depth -= 1
+                        if not api.same_elements(top, kids):
+                            why = f"children traversed: {top!r}, expected (any order) {kids!r}"
+                if why:
+                    b.fail(Failure("walk-log", f"root=container:{cname_} cut={cut_here} args={a} kw={kw} why={why}", dict(kind="walk", container=cname_, cut=cut_here, args=repr(a), kw=repr(kw)),
+                                   expected="visit, each child once, post_visit (nothing after a false visit)", actual=why[:200], functions=[f"WalkMapper.map_{cname_.split('-')[0]}"]))
     return b
 
 
@@ -243,6 +293,31 @@ def b_identity(tier):
                                    dict(kind="identity", expr=trees.src(e), mapper=cls.__name__, mode="ren", args=repr(a), kw=repr(kw)),
                                    expected=outcome.describe(exp), actual=outcome.describe(r1) + f" seen={m.seen[:3]}",
                                    functions=[f"IdentityMapper.{getattr(type(e), 'mapper_method', 'map_foreign')}"]))
+    # polynomial nodes (a legacy node type the identity mapper handles): same object when nothing changed, rebuilt with every term kept otherwise
+    from pymbolic.polynomial import Polynomial
+    x, y = trees.X, trees.Y
+    polys = [Polynomial(y, ((0, 1), (2, 3))), Polynomial(y, ((1, p.Sum((y, 1))),)), Polynomial(x, ((0, 1), (2, 3))), Polynomial(y, ((0, x), (1, 2), (3, p.Product((2, x))))),
+             Polynomial(p.Sum((x, 1)), ((0, y), (2, 1))), p.Sum((Polynomial(y, ((1, 2),)), x))]
+    for e in polys:
+        r0 = outcome.run(lambda: IdentityMapper()(e))
+        b.case((repr(e), "IdentityMapper", "poly-id"), sample=dict(expr=repr(e), mapper="IdentityMapper"))
+        if not (r0[0] == "val" and r0[1] is e):
+            b.fail(Failure("identity", f"mode=same-object mapper=IdentityMapper root={type(e).__name__} expr={e!r}", dict(kind="identity", expr=repr(e), mapper="IdentityMapper", mode="poly-id"),
+                           expected="the same object", actual=outcome.describe(r0)[:200], functions=["IdentityMapper.map_polynomial"]))
+        m = make(IdentityMapper)()
+        r1 = outcome.run(lambda: m(e))
+        b.case((repr(e), "IdentityMapper", "poly-ren"))
+
+        def rn(t):
+            if isinstance(t, Polynomial):
+                return Polynomial(rn(t.base), tuple((ex_, rn(c_)) for ex_, c_ in t.data))
+            return ref_rename(t) if not (isinstance(t, p.Sum) and any(isinstance(c_, Polynomial) for c_ in t.children)) else p.Sum(tuple(rn(c_) for c_ in t.children))
+        want = rn(e)
+        has_x = "Variable('x')" in repr(e)
+        ok = r1[0] == "val" and r1[1] == want and ((r1[1] is e) == (not has_x))
+        if not ok:
+            b.fail(Failure("identity", f"mode=rename mapper=IdentityMapper root={type(e).__name__} expr={e!r}", dict(kind="identity", expr=repr(e), mapper="IdentityMapper", mode="poly-ren"),
+                           expected=repr(want)[:150] + (" (a new object)" if has_x else " (the same object)"), actual=outcome.describe(r1)[:200], functions=["IdentityMapper.map_polynomial"]))
     return b
 
 
